@@ -71,7 +71,7 @@ pub open spec fn spec_belongs(lc: &Lifecycle, m: &DltMessage, max_buf: u64) -> b
 // The two induction steps of the clean-trace theorem, from the property: (1) a further message of the same boot with the same delay -
 // its calculated start IS the lifecycle's start - belongs to the lifecycle and leaves start = boot + delay, end = start + largest timestamp;
 pub proof fn lemma_clean_same_boot(lc: &Lifecycle, m: &DltMessage, max_buf: u64)
-    requires lc.wf(), lc.resume_lc is None, !spec_ctrl_req(m), m.standard_header.htyp & 16 != 0, calc_start(m) == lc.start_time, lc.start_time <= lc.last_reception_time,
+    requires lc.wf(), !spec_ctrl_req(m), m.standard_header.htyp & 16 != 0, calc_start(m) == lc.start_time, lc.start_time <= lc.last_reception_time,
     ensures spec_belongs(lc, m, max_buf), !spec_ignored_time(lc, m, max_buf), // O:clean.same_boot
 {}
 // (2) a message whose calculated start lies after the lifecycle's end - the first message of a later boot - does not belong to it.
@@ -192,7 +192,8 @@ impl Lifecycle {
 //@|            && final(self).max_timestamp_us == (if old(self).max_timestamp_us < old(msg).timestamp_dms as int * 100 { old(msg).timestamp_dms as int * 100 } else { old(self).max_timestamp_us as int })
 //@|            && final(self).last_reception_time == old(msg).reception_time_us, // O:clean.times (start = smallest calculated start, end = start + largest timestamp)
 //@|        r is Some && !spec_ctrl_req(old(msg)) && old(msg).timestamp_dms as int * 100 <= old(msg).reception_time_us ==>
-//@|            r->Some_0.start_time == calc_start(old(msg)) && r->Some_0.max_timestamp_us == old(msg).timestamp_dms as int * 100, // O:clean.opened
+//@|            r->Some_0.start_time == calc_start(old(msg)) && r->Some_0.max_timestamp_us == old(msg).timestamp_dms as int * 100
+//@|            && r->Some_0.last_reception_time == old(msg).reception_time_us, // O:clean.opened
 //@ end
 }
 
